@@ -67,8 +67,13 @@ func (o *simpleAccessController) GetAuthorizedByRole(role string) ([]string, err
 }
 
 func (o *simpleAccessController) CanAppend(e logac.LogEntry, _ identityprovider.Interface, _ accesscontroller.CanAppendAdditionalContext) error {
+	identity := e.GetIdentity()
+	if identity == nil {
+		return fmt.Errorf("entry has no identity")
+	}
+
 	for _, id := range o.allowedKeys["write"] {
-		if e.GetIdentity().ID == id || id == "*" {
+		if identity.ID == id || id == "*" {
 			return nil
 		}
 	}
